@@ -13,6 +13,18 @@ def natsOf (j : Json) : Except String (List Nat) := do
 def attrOf (j : Json) : Except String Split3.LineAttr := do
   pure ⟨← getNatField j "s", ← getNatField j "e", ← getStrField j "author"⟩
 
+/-- a hunk travels as `[old_count, new_start, new_count]` -/
+def hunkOf (j : Json) : Except String Split3.Hunk := do
+  match ← natsOf j with
+  | [oc, ns, nc] => pure ⟨oc, ns, nc⟩
+  | _ => throw "hunk: expected [old_count, new_start, new_count]"
+
+def jPos : Split3.Pos → Json
+  | .unchanged c => jObj [("unchanged", jNat c)]
+  | .replaces c => jObj [("replaces", jNat c)]
+  | .added => jObj [("added", Json.bool true)]
+  | .invalid => jObj [("invalid", Json.bool true)]
+
 def handle (op : String) (j : Json) : Option (Except String Json) :=
   match op with
   | "dp_parse" => some do
@@ -29,10 +41,13 @@ def handle (op : String) (j : Json) : Option (Except String Json) :=
   | "s3_split" => some do
       let attrs ← (← getArrField j "attrs").toList.mapM attrOf
       let c ← natsOf (← j.getObjVal? "committed")
-      let u ← natsOf (← j.getObjVal? "unstaged")
-      let p ← natsOf (← j.getObjVal? "pure")
-      let (com, unc) := Split3.splitFile attrs c u p
+      let hs ← (← getArrField j "hunks").toList.mapM hunkOf
+      let (com, unc) := Split3.splitFile attrs c hs
       pure (jObj [("committed", jLinesMap com), ("uncommitted", jLinesMap unc)])
+  | "s3_locate" => some do
+      let hs ← (← getArrField j "hunks").toList.mapM hunkOf
+      let ws ← natsOf (← j.getObjVal? "lines")
+      pure (jObj [("pos", jArr (ws.map fun w => jPos (Split3.locate hs w)))])
   | _ => none
 
 end GitAi.Driver.DiffSplitD
